@@ -71,36 +71,37 @@ type libSig struct {
 }
 
 var libSigs = map[string]libSig{
-	"strings.TrimSpace": {[]string{"Str"}, "Str"},
+	"strings.TrimSpace":  {[]string{"Str"}, "Str"},
 	"strings.TrimSuffix": {[]string{"Str", "Str"}, "Str"},
 	"strings.TrimPrefix": {[]string{"Str", "Str"}, "Str"},
-	"strings.HasPrefix": {[]string{"Str", "Str"}, "Bool"},
-	"strings.HasSuffix": {[]string{"Str", "Str"}, "Bool"},
-	"strings.Contains":  {[]string{"Str", "Str"}, "Bool"},
-	"strings.Index":     {[]string{"Str", "Str"}, "Int"},
-	"strings.IndexAny":  {[]string{"Str", "Str"}, "Int"},
-	"strings.TrimLeft":  {[]string{"Str", "Str"}, "Str"},
-	"strings.Split":     {[]string{"Str", "Str"}, "L_Str"},
-	"strings.SplitN":    {[]string{"Str", "Str", "Int"}, "L_Str"},
-	"strings.Fields":    {[]string{"Str"}, "L_Str"},
-	"strings.Count":     {[]string{"Str", "Str"}, "Int"},
+	"strings.HasPrefix":  {[]string{"Str", "Str"}, "Bool"},
+	"strings.HasSuffix":  {[]string{"Str", "Str"}, "Bool"},
+	"strings.Contains":   {[]string{"Str", "Str"}, "Bool"},
+	"strings.Index":      {[]string{"Str", "Str"}, "Int"},
+	"strings.IndexAny":   {[]string{"Str", "Str"}, "Int"},
+	"strings.TrimLeft":   {[]string{"Str", "Str"}, "Str"},
+	"strings.Split":      {[]string{"Str", "Str"}, "L_Str"},
+	"strings.SplitN":     {[]string{"Str", "Str", "Int"}, "L_Str"},
+	"strings.Fields":     {[]string{"Str"}, "L_Str"},
+	"strings.Count":      {[]string{"Str", "Str"}, "Int"},
 	"strings.ReplaceAll": {[]string{"Str", "Str", "Str"}, "Str"},
-	"strings.Join":      {[]string{"L_Str", "Str"}, "Str"},
-	"strings.ToLower":   {[]string{"Str"}, "Str"},
-	"strconv.Atoi#0":    {[]string{"Str"}, "Int"},
-	"strconv.Atoi#1":    {[]string{"Str"}, "Err"},
-	"isdigits":          {[]string{"Str"}, "Bool"},
-	"numval":            {[]string{"Str"}, "Int"},
-	"isspace":           {[]string{"Int"}, "Bool"},
-	"unicode.IsDigit":   {[]string{"Int"}, "Bool"},
-	"unicode.IsLetter":  {[]string{"Int"}, "Bool"},
-	"unicode.IsSpace":   {[]string{"Int"}, "Bool"},
-	"itoa":              {[]string{"Int"}, "Str"},
-	"strlex":            {[]string{}, "Bool"},
-	"strings.Compare":   {[]string{"Str", "Str"}, "Int"},
-	"digdots":           {[]string{"Str"}, "Bool"},
-	"strings.Map":       {[]string{"Fn", "Str"}, "Str"},
-	"splitnosep":        {[]string{"Str"}, "Bool"}, // carrier of two cross-function facts (no meaning of its own)
+	"strings.Join":       {[]string{"L_Str", "Str"}, "Str"},
+	"strings.ToLower":    {[]string{"Str"}, "Str"},
+	"strconv.Atoi#0":     {[]string{"Str"}, "Int"},
+	"strconv.Atoi#1":     {[]string{"Str"}, "Err"},
+	"isdigits":           {[]string{"Str"}, "Bool"},
+	"numval":             {[]string{"Str"}, "Int"},
+	"isspace":            {[]string{"Int"}, "Bool"},
+	"unicode.IsDigit":    {[]string{"Int"}, "Bool"},
+	"unicode.IsLetter":   {[]string{"Int"}, "Bool"},
+	"unicode.IsSpace":    {[]string{"Int"}, "Bool"},
+	"itoa":               {[]string{"Int"}, "Str"},
+	"strlex":             {[]string{}, "Bool"},
+	"strings.Compare":    {[]string{"Str", "Str"}, "Int"},
+	"digdots":            {[]string{"Str"}, "Bool"},
+	"strings.Map":        {[]string{"Fn", "Str"}, "Str"},
+	"strings.FieldsFunc": {[]string{"Str", "Fn"}, "L_Str"},
+	"splitnosep":         {[]string{"Str"}, "Bool"}, // carrier of two cross-function facts (no meaning of its own)
 }
 
 type libAx struct {
